@@ -155,9 +155,18 @@ func c15Case(env *Env, tape *sim.Tape) *CaseOut {
 	cmdCalls := 0
 	var hist []string
 
+	// some minifiers forward to a type nobody registered and hand the registry's own not-exist
+	// error back: the call was served (by them), it failed, and nobody else is asked
+	forwarder := map[int]bool{}
 	stub := func(id int) minify.MinifierFunc {
+		if tape.Draw(8) == 0 {
+			forwarder[id] = true
+		}
 		return func(_ *minify.M, w io.Writer, r io.Reader, params map[string]string) error {
 			rec = append(rec, c15Rec{id, params})
+			if forwarder[id] {
+				return minify.ErrNotExist
+			}
 			b, err := io.ReadAll(r)
 			if err != nil {
 				return err
@@ -294,6 +303,9 @@ func c15Case(env *Env, tape *sim.Tape) *CaseOut {
 			_, _, f := m.Match(mediatype)
 			w := sim.NewSimWriter(nil)
 			err := m.Minify(mediatype, w, bytes.NewReader(payload))
+			if len(rec) > 0 && forwarder[rec[0].id] {
+				continue // served, by a minifier that itself reports not-exist
+			}
 			if (f == nil) != errors.Is(err, minify.ErrNotExist) {
 				return fail("match-minify-disagree", site, fmt.Sprintf("Match(%q) func nil=%v but Minify error=%v", mediatype, f == nil, err))
 			}
@@ -395,6 +407,23 @@ func c15Case(env *Env, tape *sim.Tape) *CaseOut {
 			continue
 		}
 		want := fmt.Sprintf("s%d:%s", wantID, payload)
+		if forwarder[wantID] {
+			out.stat("queries_served_by_a_minifier_that_returns_not_exist", 1)
+			if kind == 6 {
+				continue // through HTTP a not-exist error means pass-through: not judged here
+			}
+			if !errors.Is(gotErr, minify.ErrNotExist) {
+				return fail("unexpected-error", site, fmt.Sprintf("%q: s%d returns the not-exist error, the call reported %v", mediatype, wantID, gotErr))
+			}
+			if len(rec) != 1 || rec[0].id != wantID {
+				var ids []int
+				for _, r := range rec {
+					ids = append(ids, r.id)
+				}
+				return fail("wrong-minifier", site, fmt.Sprintf("%q: the model dispatches to s%d only (it failed with the not-exist error); minifiers that ran: %v", mediatype, wantID, ids))
+			}
+			continue
+		}
 		if gotErr != nil {
 			return fail("unexpected-error", site, fmt.Sprintf("%q: model dispatches to s%d, call failed: %v", mediatype, wantID, gotErr))
 		}
